@@ -20,10 +20,10 @@ EXTENDS Naturals, FiniteSets, TLC
 VARIABLES opt, phase, out
 vars == <<opt, phase, out>>
 
-Over == {"absent", "pub", "all", "priv", "none"}
+Over == {"absent", "pub", "all", "priv", "prot", "none"}
 ProjD == {"pub", "pubprot", "all", "priv"}
 Set(o) == CASE o = "pub" -> {"public"} [] o = "pubprot" -> {"public", "protected"}
-            [] o = "all" -> {"public", "protected", "private"} [] o = "priv" -> {"private"} [] o = "none" -> {}
+            [] o = "all" -> {"public", "protected", "private"} [] o = "priv" -> {"private"} [] o = "prot" -> {"protected"} [] o = "none" -> {}
 
 (* entity -> [parent, perm, doc (documented?), kind] *)
 E(p, perm, doc, kind) == [parent |-> p, perm |-> perm, doc |-> doc, kind |-> kind]
